@@ -138,7 +138,7 @@ Section Rollback.
     rec_prop o w (t, i) =
       ([EPutValues t (commit_merge (o_order o) i (c_values C) (view C) (default ch_empty (p_rbvalues P)));
         EPutCfg t (C <| c_index := p_rbindex P |> <| c_committed := i |> <| c_inline := v_empty |> <| c_ainline := aview C |>);
-        EPutProp (t, i) (P <| p_commit := Some Done |>)], RDone) /\
+        EPutProp (t, i) (P <| p_commit := Some Done |>)], requeue_next t P) /\
     (forall k, (2 <= k)%nat ->
        exists C', cfgs (step w (LRec (CtlProp (t, i)) k o)) !! t = Some C' /\ c_index C' = p_rbindex P /\ c_committed C' = i /\
                   c_values C' = commit_merge (o_order o) i (c_values C) (view C) (default ch_empty (p_rbvalues P))).
@@ -167,7 +167,7 @@ Section Rollback.
               | None => false end = false }.
 
   Definition init_failed (i : N) (T : txn) (f : ftype) : list eff * result :=
-    ([EPutTx i (T <| t_state := TFailed |> <| t_failure := Some f |> <| t_abort := Some Doing |> <| t_init := Some Failed |>)], RDone).
+    ([EPutTx i (T <| t_state := TFailed |> <| t_failure := Some f |> <| t_abort := Some Doing |> <| t_init := Some Failed |>)], RRequeueTx (i + 1)).
 
   Lemma tx_rollback_missing (w : world) i T ri :
     initializing w i T -> t_details T = TRollback ri -> txs w !! ri = None -> rec_tx w i = init_failed i T FNotFound.
